@@ -1,0 +1,19 @@
+// SPDX-FileCopyrightText: 2026 The Pion community <https://pion.ly>
+// SPDX-License-Identifier: MIT
+
+//go:build verif
+
+package ice
+
+// VerifTakeContact, when set by a verification harness, receives the agent's
+// per-tick closure. If it returns true the harness drives the ticks itself and
+// the timer goroutine of connectivityChecks ends.
+var VerifTakeContact func(*Agent, func()) bool //nolint:gochecknoglobals
+
+func verifTakeContact(a *Agent, contact func()) bool {
+	if VerifTakeContact == nil {
+		return false
+	}
+
+	return VerifTakeContact(a, contact)
+}
